@@ -1,1 +1,9 @@
-pub mod placeholder {}
+//! abigen: seeded generator of ABI interface families (IR -> Rust source for the generated crate
+//! `gen_abi`), the reference model of version conversion, scripts and proptest strategies.
+//! No dependency on savefile.
+pub mod emit;
+pub mod gen;
+pub mod ir;
+pub mod model;
+pub mod script;
+pub mod strat;
